@@ -200,6 +200,11 @@ def cont(kind, items):
 def build_ui(a):
     from formak import ui
 
+    with contextlib.redirect_stdout(io.StringIO()):  # ui.Model prints before raising
+        return _build_ui(a, ui)
+
+
+def _build_ui(a, ui):
     return ui.Model(dt=a["dt"], state=cont(a["kinds"]["state"], a["state"]), control=cont(a["kinds"]["control"], a["control"]),
                     state_model=dict(a["state_model"]), calibration=cont(a["kinds"]["calib"], a["calibration"]))
 
@@ -345,6 +350,10 @@ def valid_wide_cases(draw):
     Symbol-keyed readings, LaTeX-free identifier names (the C++ entry points are exercised too)"""
     m = draw(models.model_specs(names="ident", n_state=(1, 4), n_control=(0, 3), n_calib=(0, 2), n_sensors=(0, 3),
                                 n_readings=(1, 3), depth=1, sensor_depth=1, cse=False, innovation=("none", "k")))
+    # a process noise of exactly 0.0 is not among the invalid kinds the property lists (missing / negative / not a control)
+    for c in m["control"]:
+        if draw(st.integers(0, 3)) == 0:
+            m["process_noise"][c] = 0.0
     return {"model": m, "faults": [], "valid_wide": True}
 
 
